@@ -479,8 +479,17 @@ pub fn check_case(case: &Case, st: &mut Stats) -> Check {
     let trace = run.trace_text();
     run.pkg().flush().map_err(|e| Fail::new(format!("{P} unexpected-error op=Flush"), format!("{e}; history: {trace}")))?;
     let bytes0 = run.buf.contents();
+    // one case in four has a summary edit pending (made after the save, not
+    // yet written) when the invalid call arrives: the refusal must not make
+    // the next save forget it
+    let pending = case.prefix.len() % 4 == 1;
+    if pending {
+        run.pkg().summary_info_mut().set_comments("an edit that is pending when the invalid call arrives");
+        run.pkg().summary_info_mut().set_word_count(77);
+        st.class("summary-edit-pending");
+    }
     let snap0 = run.snapshot(P)?;
-    let file_ok_before = check_file(&bytes0, &snap0, true).is_ok();
+    let file_ok_before = !pending && check_file(&bytes0, &snap0, true).is_ok();
     let (what, res) = match crate::engine::catch(|| perform(&mut run, &case.bad)) {
         Ok(Some(x)) => x,
         Ok(None) => {
@@ -507,7 +516,18 @@ pub fn check_case(case: &Case, st: &mut Stats) -> Check {
     // 2. what is read back after saving and reopening
     run.pkg().flush().map_err(|e| Fail::new(format!("{P} unexpected-error op=Flush"), format!("{e}; history: {trace}")))?;
     let bytes1 = run.buf.contents();
-    let re0 = reopen_snapshot(&bytes0);
+    // (with a pending edit, what reopens is the file saved before the edit
+    // plus the edit itself)
+    let expected_reopen = || {
+        reopen_snapshot(&bytes0).map(|mut s| {
+            if pending {
+                s.summary.comments = Some("an edit that is pending when the invalid call arrives".to_string());
+                s.summary.word_count = Some(77);
+            }
+            s
+        })
+    };
+    let re0 = expected_reopen();
     let re1 = reopen_snapshot(&bytes1);
     match (re0, re1) {
         (Ok(a), Ok(b)) => {
@@ -542,7 +562,7 @@ pub fn check_case(case: &Case, st: &mut Stats) -> Check {
             }
             run.pkg().flush().map_err(|e| Fail::new(format!("{P} unexpected-error op=Flush"), format!("{e}; history: {trace}")))?;
             let bytes2 = run.buf.contents();
-            if let (Ok(a), Ok(b)) = (reopen_snapshot(&bytes0), reopen_snapshot(&bytes2)) {
+            if let (Ok(a), Ok(b)) = (expected_reopen(), reopen_snapshot(&bytes2)) {
                 if let Some((part, d)) = a.diff(&b) {
                     return Err(Fail::new(format!("{P} changed-after-reopen-by-retry part={part} call={kind}"), detail(&format!("after a second rejection, saving and reopening, {part} differs: {d}"))));
                 }
